@@ -56,6 +56,9 @@ def h_digest(perm: int, c0: int, c1: int, c2: int, c3: int, x: bool) -> bool:
     sel = [pick(c, 0, 2) for c in (c0, c1, c2, c3)[:N]]
     vals = {k: POOL[s] for k, s in zip(KEYS[:N], sel)}
     t = Tree()
+    if cube("query_first", False):  # a prefix query on the still-empty tree must not freeze its view
+        if len(t.filter(("a",))) != 0 or t.get_obj(None, ("a",)) is not None and len(t.get_obj(None, ("a",))) != 0:
+            violation("empty-tree-not-empty", None)
     for i in order:
         t.add(KEYS[i], Meta(size=3, isexec=B(x)), HashInfo("md5", vals[KEYS[i]]))
     t.digest()
@@ -67,6 +70,14 @@ def h_digest(perm: int, c0: int, c1: int, c2: int, c3: int, x: bool) -> bool:
             violation("bytes-are-not-the-canonical-listing", None)
         if t.fs.cat_file(t.path) != canon:
             violation("object-bytes-differ-from-digested-bytes", None)
+        under_a = {k[1:]: v for k, v in vals.items() if k[0] == "a" and len(k) > 1}
+        if under_a:
+            sub = t.get_obj(None, ("a",))
+            f = t.filter(("a",))
+            if sub is None or {k: hi.value for k, _, hi in sub} != under_a:
+                violation("sub-tree-lookup-misses-entries", sorted(under_a))
+            if {k[1:]: hi.value for k, _, hi in f} != under_a:
+                violation("filter-misses-entries", sorted(under_a))
     journal({"order": list(order), "sel": sel}, True)
     return True
 
